@@ -7,7 +7,11 @@ repair of C20-F2: C20_*_printed_exact, C20_filter_alias) and as a SET with a Pyt
 dependency relation).  In-process: GetAncestors / GetDescendants against Select.deps_t / rdeps_t as
 multisets of nodes, GetAncestors also as a list (first-visit order).  Rebuild prediction: build, edit one input
 file, build again; the commands of the second build must be a subset of owners(f) + their
-transitive rdeps as printed by the real query commands (+ targets tagged no-cache)."""
+transitive rdeps as printed by the real query commands (+ targets tagged no-cache).
+Spelling: a node carries its canonical inputs ("inputs": Python reference, files on disk) AND the spelling written to the
+BUILD file ("spelled": ./f, zz/../f, d//f, d/./f); the model line carries the SPELLING, and the `owners` arguments as typed
+(one in two respelled ./p/f, p//f, p/x/../f, p/./f) with the current package in front, uncleaned: model and implementation
+see the same strings (Select.owners cleans both sides; C20_owners_spelling_independent, C20_owners_verbatim_refuted)."""
 import json, os
 from collections import Counter
 from concurrent.futures import ThreadPoolExecutor
@@ -37,12 +41,37 @@ def gen_queries(r, nodes, nq):
             cand = files + [("", "nofile.txt"), ("a", "f1.txt"), ("", "f1.txt")]
             q["files"] = [r.choice(cand) for _ in range(1 + r.below(2))]
             q["from_pkg"] = r.chance(1, 3)
+            # the arguments as typed: one in two in a non-canonical spelling (./p/f, p//f, p/x/../f, p/./f)
+            q["args"] = [sl.respell_arg(r.below(5), a) if r.chance(1, 2) else a for a in canonical_args(q)]
         qs.append(q)
     return qs
 
 
 def ws_rel(pkg, f):
     return f if pkg == "" else pkg + "/" + f
+
+
+def owners_cwd(q):
+    """the package `grog owners` is run in"""
+    return q["files"][0][0] if q["from_pkg"] else ""
+
+
+def canonical_args(q):
+    """the files of an owners query as clean paths relative to the directory the command runs in"""
+    pkg = owners_cwd(q)
+    return [os.path.relpath(ws_rel(p, f), pkg if pkg else ".") for p, f in q["files"]]
+
+
+def owners_args(q):
+    """the arguments as typed (q["args"]; replays written before arguments were spelled have none: canonical)"""
+    return list(q["args"]) if q.get("args") else canonical_args(q)
+
+
+def model_files(q):
+    """what the model receives: every argument as typed, made relative to the workspace root by putting the current
+    package in front of it, NOT cleaned (Select.canon_arg cleans, as filepath.Abs does)"""
+    pkg = owners_cwd(q)
+    return [ws_rel(pkg, a) for a in owners_args(q)]
 
 
 def model_line(nodes, q):
@@ -54,7 +83,7 @@ def model_line(nodes, q):
     if q["kind"] in ("deps", "rdeps"):
         return "%s\t%s\t%s\t%d\t%d" % (q["kind"], en, ec, q["n"], 1 if q["t"] else 0)
     if q["kind"] == "owners":
-        return "owners\t%s\t%s\t%s" % (en, ec, ".".join(hx(ws_rel(p, f)) for p, f in q["files"]))
+        return "owners\t%s\t%s\t%s" % (en, ec, ".".join(hx(f) for f in model_files(q)))
     return "listq\t%s\t%s" % (en, ec)
 
 
@@ -68,11 +97,7 @@ def cli_args(nodes, q):
             return args + [":" + nd["name"]], nd["pkg"]
         return args + [sl.label_of(nd)], cfg["cur"]
     if q["kind"] == "owners":
-        if q["from_pkg"]:
-            pkg = q["files"][0][0]
-            rel = [os.path.relpath(ws_rel(p, f), pkg if pkg else ".") for p, f in q["files"]]
-            return ["owners"] + rel, pkg
-        return ["owners"] + [ws_rel(p, f) for p, f in q["files"]], ""
+        return ["owners"] + owners_args(q), owners_cwd(q)
     return ["list", "--target-type=" + cfg["type"]] + sl.cli_flags(cfg) + cfg["pats"], cfg["cur"]
 
 
@@ -188,6 +213,22 @@ def check_query(out, nodes, q, res, mline, findings, stats, budget):
     return ok
 
 
+def spelling_stats(drv, worlds, jobs, model, stats):
+    """How much of the owners part of the run depends on spelling: queries on which Select.owners_verbatim (the comparison with the
+    input as spelled, C20_owners_verbatim_refuted) prints something else than Select.owners; inputs / arguments written non-canonically;
+    and the guard of C20_owners_abs_is_owners_partial evaluated on everything generated (nothing climbs above the workspace root)."""
+    ow = [(k, wi, q) for k, (wi, q) in enumerate(jobs) if q["kind"] == "owners"]
+    _, verb, _ = vlib.run_lines(drv, [model_line(worlds[wi][0], q).replace("owners\t", "owners-verbatim\t", 1) for _, wi, q in ow])
+    stats["owners_queries"] = len(ow)
+    stats["owners_queries_where_verbatim_comparison_differs"] = sum(1 for (k, _, _), v in zip(ow, verb) if v != model[k]) if len(verb) == len(ow) else -1
+    stats["owners_queries_with_respelled_argument"] = sum(1 for _, _, q in ow if owners_args(q) != canonical_args(q))
+    ins = [(nd, i, sp) for nodes, _ in worlds for nd in nodes for i, sp in zip(nd["inputs"], sl.spelled_inputs(nd))]
+    stats["inputs"] = len(ins)
+    stats["inputs_spelled_non_canonically"] = sum(1 for _, i, sp in ins if i != sp)
+    stats["guard_stays_inside_violated"] = (sum(1 for nd, _, sp in ins if not sl.stays_inside(ws_rel(nd["pkg"], sp)))
+                                            + sum(1 for _, _, q in ow for f in model_files(q) if not sl.stays_inside(f)))
+
+
 def filt(cfg):
     return "type=%s tags=%s exclude=%s platform=%s%s" % (cfg["type"], cfg["tags"], cfg["excl"], cfg["plat"], " all-platforms" if cfg["all"] else "")
 
@@ -219,7 +260,7 @@ def rebuild_case(grog, base, k, nodes, fsel):
     answers of the real `grog owners` / `grog rdeps -t`."""
     ws = os.path.join(base, "rb%d" % k)
     trace = os.path.join(base, "rbtrace%d.txt" % k)
-    sl.render_workspace(nodes, ws, trace=trace, spell=vlib.Rng(vlib.seed() * 7919 + k))
+    sl.render_workspace(nodes, ws, trace=trace)
     env = sl.grog_env(os.path.join(base, "rbroot%d" % k))
     cmds = []
     if any(nd["kind"] == "t" and not sl.is_test_name(nd["name"]) for nd in nodes):
@@ -249,7 +290,7 @@ def rebuild_case(grog, base, k, nodes, fsel):
     b1, b2 = B(), B()
     b1.returncode, b1.stdout, b1.stderr = rc1, o1, ""
     b2.returncode, b2.stdout, b2.stderr = rc2, o2, ""
-    ow = vlib.run([grog, "owners", ws_rel(pkg, f)], cwd=ws, env=env, timeout=60)
+    ow = vlib.run([grog, "owners", sl.respell_arg(k, ws_rel(pkg, f))], cwd=ws, env=env, timeout=60)
     owners = [l for l in ow.stdout.split("\n") if l.startswith("//")]
     allowed = set(owners)
     for o in owners:
@@ -265,7 +306,7 @@ def rebuild_prediction(out, grog, r, tier, stats):
     tries = 0
     while len(cases) < n and tries < 50 * n:
         tries += 1
-        nodes = sl.gen_world(r, nmax=9, constraints=True, files=True, bins=False, plats=False, nocache=True, dupdeps=False)
+        nodes = sl.gen_world(r, nmax=9, constraints=True, files=True, bins=False, plats=False, nocache=True, dupdeps=False, spell=True)
         files = sorted({(nd["pkg"], f) for nd in nodes for f in nd["inputs"]})
         if not files:
             continue
@@ -384,13 +425,22 @@ def run(out, tier):
                          {"kind": "rdeps", "cfg": dict(cfg0, excl=["x"]), "n": 0, "t": True, "relative": False},
                          {"kind": "deps", "cfg": dict(cfg0, type="test"), "n": 2, "t": False, "relative": False},
                          {"kind": "list", "cfg": cfg_all}]))
+    # the instance of C20_owners_spelled_nonvacuous / C20_owners_verbatim_refuted: four non-canonical spellings and a canonical one,
+    # asked for with canonical and with respelled arguments, from the root and from the package
+    spw = [{"kind": "t", "pkg": "a", "name": n, "tags": [], "plats": [], "bin": False, "deps": [], "inputs": [c], "spelled": [sp]}
+           for n, c, sp in (("t4", "sub/f3.txt", "sub/./f3.txt"), ("t1", "f1.txt", "./f1.txt"), ("t5", "f1.txt", "f1.txt"),
+                            ("t3", "sub/f3.txt", "sub//f3.txt"), ("t2", "f1.txt", "zz/../f1.txt"))]
+    spf = [("a", "f1.txt"), ("a", "sub/f3.txt")]
+    worlds.append((spw, [{"kind": "owners", "cfg": cfg0, "files": spf, "from_pkg": False, "args": ["a/f1.txt", "a/sub/f3.txt"]},
+                         {"kind": "owners", "cfg": cfg0, "files": spf, "from_pkg": False, "args": ["./a//f1.txt", "a/x/../sub/./f3.txt"]},
+                         {"kind": "owners", "cfg": cfg0, "files": spf, "from_pkg": True, "args": ["./f1.txt", "x/../sub//f3.txt"]}]))
     for _ in range(nws):
-        nodes = sl.gen_world(r, nmax=10, files=True)
+        nodes = sl.gen_world(r, nmax=10, files=True, spell=True)
         worlds.append((nodes, gen_queries(r, nodes, nq)))
     jobs = []
     for wi, (nodes, qs) in enumerate(worlds):
         ws = os.path.join(base, "ws%d" % wi)
-        sl.render_workspace(nodes, ws, r=r, spell=vlib.Rng(r.next()))
+        sl.render_workspace(nodes, ws, r=r)
         for q in qs:
             jobs.append((wi, q))
     env = sl.grog_env(os.path.join(base, "root"))
@@ -401,6 +451,7 @@ def run(out, tier):
     with ThreadPoolExecutor(max_workers=24) as ex:
         results = list(ex.map(lambda j: run_query(grog, os.path.join(base, "ws%d" % j[0]), env, worlds[j[0]][0], j[1]), jobs))
     stats = {"dup": 0, "alias": 0, "model_mismatch": 0, "inverse_pairs": 0, "by_kind": Counter()}
+    spelling_stats(drv, worlds, jobs, model, stats)
     budget = [4]
     nontriv = set()
     samples = []
@@ -427,8 +478,9 @@ def run(out, tier):
         "evaluations": len(jobs) + stats["inverse_pairs"] + stats.get("rebuild_cases", 0) + stats.get("inprocess_traversals", 0),
         "distinct_nontrivial": len(nontriv),
         "rule": "%d generated workspaces (1-10 nodes, packages {'', a, a/b, ab}, aliases incl. chains, tags, platforms, bin outputs, input "
-                "files, duplicate dependency entries) x %d queries (deps/rdeps with and without -t, --target-type, tags, platform; owners with "
-                "1-2 files from the root or a package directory; list with 0-3 patterns); non-trivial = the command prints at least one "
+                "files two in three spelled ./f, zz/../f, d//f, d/./f, duplicate dependency entries) x %d queries (deps/rdeps with and without "
+                "-t, --target-type, tags, platform; owners with 1-2 files from the root or a package directory, one argument in two spelled "
+                "./p/f, p//f, p/x/../f, p/./f; list with 0-3 patterns); non-trivial = the command prints at least one "
                 "label; distinct = distinct (workspace, command line, cwd)" % (nws, nq),
         "samples": samples,
         "traces_validated_against_impl": len(jobs),
@@ -437,7 +489,10 @@ def run(out, tier):
         "inprocess_tie": inproc,
     })
     out.assumptions += [
-        "input paths are clean relative paths (no '.', '..', doubled slashes, globs)",
+        "literal inputs and `owners` arguments are spelled arbitrarily ('.', '..', doubled slashes) but do not climb above the workspace "
+        "root (guard stays_inside of C20_owners_abs_is_owners_partial, evaluated on every generated input and argument: "
+        "input_distribution.guard_stays_inside_violated; inputs cannot leave their package: analysis.checkInputPathsRelative); no globs; "
+        "the model receives the inputs as written in the BUILD file and the arguments as typed, with the current package in front",
         "the tag/exclude-tag/type/platform options are filters on the printed set; an alias stands for the target it resolves to",
         "rebuild prediction is exercised with `grog build --all-platforms //...` on workspaces without platform selectors and outputs; "
         "the formal statement C20_rebuild_predicted needs the build model (Build.v) and is not part of this file",
